@@ -102,7 +102,7 @@ def _diamond(desc):
 
 
 EDGE_KINDS = ("operand", "shape", "index", "csr", "send", "call", "dict",
-              "loopy", "slice", "stack", "einsum", "named")
+              "loopy", "slice", "stack", "einsum", "named", "nested")
 
 
 def _edges(desc):
@@ -152,6 +152,26 @@ def _edges(desc):
                                                   stapled_to=xf * 2)
         outs["send2"] = pt.staple_distributed_send(xf, dest_rank=1, comm_tag=8,
                                                    stapled_to=s)
+    if "send" in kinds:
+        # payload and pass-through are one and the same node
+        xf3 = xf * 3
+        outs["send_same"] = pt.staple_distributed_send(
+            xf3, dest_rank=1, comm_tag=9, stapled_to=xf3)
+    if "nested" in kinds:
+        # nested, shared functions: the first function met (f1) calls g,
+        # whose body contains a call itself, and g is called again later
+        def h(a):
+            return a * 2
+
+        def g(a):
+            return pt.trace_call(h, a) + 1
+
+        def f1(a):
+            return pt.trace_call(g, a) * 3
+
+        def f2(a):
+            return pt.trace_call(g, a) - 1
+        outs["nested"] = pt.trace_call(f1, xf) + pt.trace_call(f2, xf)
     if "call" in kinds:
         def f(a, b):
             # (the body holds equal but distinct subexpressions: a + 1 twice)
